@@ -69,4 +69,16 @@ MUTANTS = [
     ("c03-name-lookup-first-match", "C03", O, "        item = self.names.get(subindex) or self.subindices.get(subindex)\n        if item is None:\n            raise KeyError(f\"Subindex {pretty_index(None, subindex)} was not found\")", "        item = self.names.get(subindex) or self.subindices.get(subindex if not isinstance(subindex, int) else (subindex if subindex < 20 else 1))\n        if item is None:\n            raise KeyError(f\"Subindex {pretty_index(None, subindex)} was not found\")"),
     ("c03-real32-as-real64", "C03", O, 'REAL32: struct.Struct("<f")', 'REAL32: struct.Struct("<e")'),
     ("c03-unicode-utf8", "C03", O, 'return value.encode("utf_16_le")', 'return value.encode("utf_8")'),
+    # ---- C10
+    ("c10-duplicate-check-removed", "C10", "canopen/network.py", "        if callback not in self.subscribers[can_id]:\n            self.subscribers[can_id].append(callback)", "        self.subscribers[can_id].append(callback)"),
+    ("c10-unsubscribe-one-removes-all", "C10", "canopen/network.py", "            self.subscribers[can_id].remove(callback)", "            del self.subscribers[can_id]"),
+    ("c10-remove-network-forgets-emcy", "C10", "canopen/node/remote.py", "        self.network.unsubscribe(0x80 + self.id, self.emcy.on_emcy)\n", ""),
+    ("c10-extended-threshold", "C10", "canopen/network.py", "        msg = can.Message(is_extended_id=can_id > 0x7FF,", "        msg = can.Message(is_extended_id=can_id >= 0x7FF,"),
+    ("c10-periodic-extended", "C10", "canopen/network.py", "        self.msg = can.Message(is_extended_id=can_id > 0x7FF,", "        self.msg = can.Message(is_extended_id=can_id > 0xFFF,"),
+    ("c10-remote-frames-dispatched", "C10", "canopen/network.py", "if msg.is_error_frame or msg.is_remote_frame:", "if msg.is_error_frame:"),
+    ("c10-scanner-node0", "C10", "canopen/network.py", "if node_id not in self.nodes and node_id != 0 and service in self.SERVICES:", "if node_id not in self.nodes and service in self.SERVICES:"),
+    ("c10-scanner-sdo-rx", "C10", "canopen/network.py", "SERVICES = (0x700, 0x580, 0x180, 0x280, 0x380, 0x480, 0x80)", "SERVICES = (0x700, 0x580, 0x600, 0x180, 0x280, 0x380, 0x480, 0x80)"),
+    ("c10-local-remove-keeps-nmt", "C10", "canopen/node/local.py", "        self.network.unsubscribe(0, self.nmt.on_command)\n", ""),
+    ("c10-notify-reversed", "C10", "canopen/network.py", "            for callback in callbacks:\n                callback(can_id, data, timestamp)", "            for callback in reversed(callbacks):\n                callback(can_id, data, timestamp)"),
+    ("c10-replace-keeps-old", "C10", "canopen/network.py", "        if node_id in self.nodes:\n            # Remove old callbacks\n            self.nodes[node_id].remove_network()", "        if node_id in self.nodes and type(self.nodes[node_id]) is type(node):\n            # Remove old callbacks\n            self.nodes[node_id].remove_network()"),
 ]
